@@ -61,6 +61,8 @@ type col struct {
 	autoInc bool
 	dflt    *dflt
 	comment string
+	cs      string // CHARACTER SET clause as issued ("" = absent); text columns only
+	coll    string // COLLATE clause as issued ("" = absent)
 }
 
 type key struct {
@@ -76,6 +78,8 @@ type table struct {
 	pk      []string
 	keys    []key
 	comment string
+	cs      string // DEFAULT CHARSET table option as issued ("" = absent)
+	coll    string // COLLATE table option as issued ("" = absent)
 }
 
 func qid(s string) string { return "`" + strings.ReplaceAll(s, "`", "``") + "`" }
@@ -108,6 +112,12 @@ func (t *table) DDL() string {
 	var parts []string
 	for _, c := range t.cols {
 		s := qid(c.name) + " " + c.ty.SQL()
+		if c.cs != "" {
+			s += " CHARACTER SET " + c.cs
+		}
+		if c.coll != "" {
+			s += " COLLATE " + c.coll
+		}
 		if c.notNull {
 			s += " NOT NULL"
 		}
@@ -156,10 +166,23 @@ func (t *table) DDL() string {
 		parts = append(parts, s)
 	}
 	s := "CREATE TABLE " + qid(t.name) + " (" + strings.Join(parts, ", ") + ")"
+	if t.cs != "" {
+		s += " DEFAULT CHARSET=" + t.cs
+	}
+	if t.coll != "" {
+		s += " COLLATE=" + t.coll
+	}
 	if t.comment != "" {
 		s += " COMMENT=" + sqlStr(t.comment)
 	}
 	return s
+}
+
+func optAtom(s string) string {
+	if s == "" {
+		return "-"
+	}
+	return hx.HexS(s)
 }
 
 func b01(b bool) int {
@@ -182,7 +205,7 @@ func (t *table) payload() string {
 				d = "(" + c.dflt.kind + " " + hx.HexS(c.dflt.text) + ")"
 			}
 		}
-		fmt.Fprintf(&b, " (%s %s %d %d %s %s)", hx.HexS(c.name), c.ty.payload(), b01(c.notNull), b01(c.autoInc), d, hx.HexS(c.comment))
+		fmt.Fprintf(&b, " (%s %s %d %d %s %s %s %s)", hx.HexS(c.name), c.ty.payload(), b01(c.notNull), b01(c.autoInc), d, hx.HexS(c.comment), optAtom(c.cs), optAtom(c.coll))
 	}
 	b.WriteString(") (pk")
 	for _, n := range t.pk {
@@ -196,7 +219,7 @@ func (t *table) payload() string {
 		}
 		fmt.Fprintf(&b, " (%d %s (%s) %s)", b01(k.unique), hx.HexS(k.name), strings.Join(cs, " "), hx.HexS(k.comment))
 	}
-	b.WriteString(") " + hx.HexS(t.comment) + ")")
+	b.WriteString(") " + hx.HexS(t.comment) + " (opts " + optAtom(t.cs) + " " + optAtom(t.coll) + "))")
 	return b.String()
 }
 
@@ -305,12 +328,13 @@ func pow10(n int) int {
 	return p
 }
 
-func genTable(r *hx.Rand, idx int) *table {
+func genTable(r *hx.Rand, idx int, ce *collEnv) *table {
 	used := map[string]bool{}
 	t := &table{name: genIdent(r, map[string]bool{})}
 	if r.Chance(1, 2) {
 		t.name = fmt.Sprintf("t%d", idx)
 	}
+	tc := ce.genTableColl(r, t)
 	n := 1 + r.Intn(5)
 	for i := 0; i < n; i++ {
 		c := col{name: genIdent(r, used), ty: genTy(r), notNull: r.Chance(1, 3)}
@@ -319,6 +343,15 @@ func genTable(r *hx.Rand, idx int) *table {
 			c.dflt = &dflt{kind: "null"}
 		}
 		c.comment = genComment(r, false)
+		if c.ty.isText() {
+			ce.genColColl(r, tc, &c)
+			// kept out of the envelope (not C22: length / encodability checks of a default under the column's character
+			// set): the engine measures a CHAR(n) default of a non-utf8mb4 column in UTF-8 bytes ('bx\\é' "is too large"
+			// for CHAR(4) CHARACTER SET latin1) — non-ASCII letters only in defaults of utf8mb4 columns
+			if cc, ok := ce.resolve(tc, c.cs, c.coll); ok && cc.cs != "utf8mb4" && c.dflt != nil && c.dflt.kind == "str" {
+				c.dflt.text = strings.TrimRight(strings.ReplaceAll(c.dflt.text, "é", "e"), " ")
+			}
+		}
 		t.cols = append(t.cols, c)
 	}
 	keyable := func() []int {
@@ -383,10 +416,37 @@ func showCreate(e *eng.Eng, ctx *sql.Context, name string) (string, string) {
 	return r.Rows[0][1], "ok"
 }
 
-func runCase(t *table, out *hx.Out) error {
+func runCase(t *table, out *hx.Out, ce *collEnv, client bool) error {
 	e := eng.New("d")
 	ctx := e.Ctx()
+	// classify the collation clauses of the case (statistics; the model resolves them itself)
+	engine := ce.byName[sql.Collation_Default.Name()]
+	tc, valid := ce.resolve(engine, t.cs, t.coll)
+	hasColl := t.cs != "" || t.coll != ""
+	if valid {
+		if hasColl {
+			out.Stat("coll:table-explicit:" + tc.cs)
+		}
+		for _, c := range t.cols {
+			if !c.ty.isText() {
+				continue
+			}
+			cc, ok := ce.resolve(tc, c.cs, c.coll)
+			if !ok {
+				valid = false
+				break
+			}
+			out.Stat(collClass(tc, cc, c.cs != "" || c.coll != ""))
+			hasColl = hasColl || c.cs != "" || c.coll != ""
+		}
+	}
 	if r := e.Query(eng.SameSession(ctx), t.DDL()); r.Class() != "ok" {
+		if !valid && strings.HasPrefix(r.Class(), "err:") {
+			// a COLLATE that does not belong to the CHARACTER SET: the model's reader rejects it too
+			out.Case(t.payload(), "rejected", true)
+			out.Stat("coll:mismatch-rejected")
+			return nil
+		}
 		return fmt.Errorf("harness: generated DDL rejected (%s): %s: %v", r.Class(), t.DDL(), r.Err)
 	}
 	text, cl := showCreate(e, ctx, t.name)
@@ -394,7 +454,7 @@ func runCase(t *table, out *hx.Out) error {
 	if cl != "ok" {
 		obs = "show:" + cl
 	}
-	nontrivial := len(t.keys) > 0 || t.comment != ""
+	nontrivial := len(t.keys) > 0 || t.comment != "" || hasColl
 	for _, c := range t.cols {
 		if c.comment != "" || c.dflt != nil {
 			nontrivial = true
@@ -406,8 +466,21 @@ func runCase(t *table, out *hx.Out) error {
 	if cl != "ok" {
 		return nil
 	}
-	// the property on the engine alone: the printed statement recreates a table that prints identically
+	// the property on the engine alone: the printed statement recreates the same OBJECT — the catalogue's
+	// description of it (columns with character set / collation / default / key role, key layouts, table
+	// collation and comment), the way = behaves under each column's collation, and its printed text
 	desc1 := e.Query(eng.SameSession(ctx), "DESCRIBE "+qid(t.name))
+	obj1, err := object(e, ctx, t.name)
+	if err != nil {
+		return fmt.Errorf("harness: catalogue object: %v", err)
+	}
+	snap1 := ""
+	if client {
+		if snap1, err = snapshot(e, ctx, t.name); err != nil {
+			return fmt.Errorf("harness: information_schema snapshot failed: %v", err)
+		}
+	}
+	beh1 := behaviour(e, ctx, t)
 	if r := e.Query(eng.SameSession(ctx), "DROP TABLE "+qid(t.name)); r.Class() != "ok" {
 		return fmt.Errorf("harness: DROP TABLE failed: %v", r.Err)
 	}
@@ -423,14 +496,54 @@ func runCase(t *table, out *hx.Out) error {
 		out.OracleFail(id, "-", fmt.Sprintf("SHOW CREATE TABLE of the recreated table differs: %q vs %q", text, text2))
 		return nil
 	}
+	obj2, err := object(e, ctx, t.name)
+	if err != nil {
+		return fmt.Errorf("harness: catalogue object of the recreated table: %v", err)
+	}
+	if obj1 != obj2 {
+		out.Stat("fixpoint:object-differs")
+		out.OracleFail(id, "-", fmt.Sprintf("the table recreated from the SHOW CREATE TABLE text is a different object (%s): original %q recreated %q statement %q", firstDiff(obj1, obj2), obj1, obj2, text))
+		return nil
+	}
 	desc2 := e.Query(eng.SameSession(ctx), "DESCRIBE "+qid(t.name))
 	if eng.Canon(desc1, true) != eng.Canon(desc2, true) {
 		out.Stat("fixpoint:describe-differs")
 		out.OracleFail(id, "-", "DESCRIBE of the recreated table differs: "+eng.Canon(desc1, true)+" vs "+eng.Canon(desc2, true))
 		return nil
 	}
+	if client {
+		out.Stat("fixpoint:information_schema-compared")
+		snap2, err := snapshot(e, ctx, t.name)
+		if err != nil {
+			return fmt.Errorf("harness: information_schema snapshot of the recreated table failed: %v", err)
+		}
+		if snap1 != snap2 {
+			out.Stat("fixpoint:information_schema-differs")
+			out.OracleFail(id, "-", fmt.Sprintf("the table recreated from the SHOW CREATE TABLE text is a different object (information_schema columns / statistics / tables; %s): original %q recreated %q statement %q", firstDiff(snap1, snap2), snap1, snap2, text))
+			return nil
+		}
+	}
+	if beh1 != "" {
+		out.Stat("fixpoint:behaviour-probed")
+		if beh2 := behaviour(e, ctx, t); beh2 != beh1 {
+			out.Stat("fixpoint:behaviour-differs")
+			out.OracleFail(id, "-", fmt.Sprintf("= behaves differently on the recreated table (row of 'abc' values; per text column: = upper-cased value, = value with a trailing space): original %s recreated %s statement %q", beh1, beh2, text))
+			return nil
+		}
+	}
 	out.Stat("fixpoint:ok")
 	return nil
+}
+
+// firstDiff names the first line two snapshots disagree on.
+func firstDiff(a, b string) string {
+	la, lb := strings.Split(a, "\n"), strings.Split(b, "\n")
+	for i := 0; i < len(la) && i < len(lb); i++ {
+		if la[i] != lb[i] {
+			return "first difference: " + la[i] + "  VS  " + lb[i]
+		}
+	}
+	return "different number of lines"
 }
 
 // otherObjects: views, triggers and procedures print the stored statement text; the fixed point is
@@ -440,7 +553,10 @@ func otherObjects(out *hx.Out) error {
 	ctx := e.Ctx()
 	q := func(s string) *eng.Res { return e.Query(eng.SameSession(ctx), s) }
 	e.MustExec(ctx, "CREATE TABLE base (a INT PRIMARY KEY, b INT, s VARCHAR(20))")
-	type obj struct{ kind, name, create, show string; col int }
+	type obj struct {
+		kind, name, create, show string
+		col                      int
+	}
 	objs := []obj{
 		{"VIEW", "v1", "CREATE VIEW v1 AS SELECT a, b + 1 AS c FROM base WHERE s <> 'x''y'", "SHOW CREATE VIEW v1", 1},
 		{"VIEW", "v2", "CREATE VIEW `v2` AS SELECT COUNT(*) AS n, MAX(b) FROM base GROUP BY s HAVING n > 1", "SHOW CREATE VIEW v2", 1},
@@ -479,11 +595,22 @@ func run(a hx.RunArgs) error {
 	out := hx.NewOut(a.OutDir)
 	defer out.Close()
 	out.Rule = "generated CREATE TABLE statements (1-5 columns of INT / BIGINT / TINYINT / DOUBLE / DECIMAL(p,s) / DATE / CHAR(n) / VARCHAR(n) / TEXT, NOT NULL, " +
-		"AUTO_INCREMENT, literal and NULL defaults, comments, single / composite PRIMARY KEY, KEY / UNIQUE KEY with comments, table comment; identifiers and " +
+		"AUTO_INCREMENT, literal and NULL defaults, comments, single / composite PRIMARY KEY, KEY / UNIQUE KEY with comments, table comment; half of the tables " +
+		"with DEFAULT CHARSET / COLLATE options over 16 collations of utf8mb4, latin1, ascii, utf8mb3, utf16; text columns with CHARACTER SET / COLLATE clauses " +
+		"(none / the default collation of the table's character set / another collation of it / the table collation / any collation; written as COLLATE, " +
+		"CHARACTER SET + COLLATE, or CHARACTER SET alone); a corpus of COLLATE-vs-CHARACTER SET mismatches (rejected); identifiers and " +
 		"comments over alphabets with back quotes, quotes, backslashes, newlines, spaces and non-ASCII letters); the text of SHOW CREATE TABLE is compared " +
-		"with the model's printer, then the statement is executed after DROP TABLE and SHOW CREATE TABLE / DESCRIBE must be identical; views, triggers and " +
-		"procedures: fixed point on a corpus; non-trivial = the table has a default, a comment or a secondary key"
+		"with the model's printer (clauses resolved by the model's reader), then the statement is executed after DROP TABLE and the recreated OBJECT must be " +
+		"the same: SHOW CREATE TABLE / DESCRIBE text, the catalogue's table object (per column type, character set, collation, nullability, key flags, default, extra, " +
+		"comment; primary-key column order; every index's column layout, uniqueness, comment; table collation and comment), on the corpus and every 10th table also " +
+		"information_schema.columns / statistics / tables, and the results of = against an inserted row under each " +
+		"text column's collation; views, triggers and procedures: fixed point on a corpus; non-trivial = the table has a default, a comment, a secondary key or " +
+		"a character set / collation clause"
 	r := hx.NewRand(a.Seed).Fork()
+	ce, err := newCollEnv()
+	if err != nil {
+		return err
+	}
 	if err := otherObjects(out); err != nil {
 		return err
 	}
@@ -504,8 +631,9 @@ func run(a hx.RunArgs) error {
 			{name: "d", ty: ty{kind: "date"}, dflt: &dflt{kind: "num", text: "2020-01-02"}}, {name: "n", ty: ty{kind: "double"}, dflt: &dflt{kind: "null"}}},
 			keys: []key{{unique: true, name: "u`q", cols: []string{"x y", "é"}, comment: "fine \"x\""}}},
 	}
+	corpus = append(corpus, collCorpus()...)
 	for _, t := range corpus {
-		if err := runCase(t, out); err != nil {
+		if err := runCase(t, out, ce, true); err != nil {
 			return err
 		}
 	}
@@ -515,7 +643,7 @@ func run(a hx.RunArgs) error {
 		n = 40000
 	}
 	for i := 0; i < n; i++ {
-		if err := runCase(genTable(r, i), out); err != nil {
+		if err := runCase(genTable(r, i, ce), out, ce, i%10 == 0); err != nil {
 			return err
 		}
 	}
@@ -592,5 +720,8 @@ func extract(a hx.ExtractArgs) error {
 	}
 	sb.WriteString("]\n")
 	lf.Raw(sb.String())
+	if err := collFacts(lf); err != nil {
+		return err
+	}
 	return lf.Write(a.Out)
 }
